@@ -36,8 +36,9 @@ def gen_cases(tier, seed):
     n = 50 if tier == "quick" else 1250
     cases = []
     small = [1e-5, 2e-4, 5e-4, 9.99e-4, 1e-3, 3e-3]      # "a > 0": mean degrees in the hundreds and thousands are rates like these
-    for a in [0.01 + 1e-9, 0.05, 0.5, 1.0, 2.0, 5.0, 1, 2, 5] + small + [rng.uniform(0.01, 5) if rng.random() < 0.8 else math.exp(rng.uniform(math.log(1e-5), math.log(1e-2)))
-                                                                        for _ in range(n - 15)]:
+    large = [40.0, 709.0, 710.0, 745.0, 746.0, 800, 5000.0]      # ... and "a > 0" has no upper end: exp(a) leaves the floats at a = 709.78, exp(-a) at 745.13
+    for a in [0.01 + 1e-9, 0.05, 0.5, 1.0, 2.0, 5.0, 1, 2, 5] + small + large + [rng.uniform(0.01, 5) if rng.random() < 0.8 else math.exp(rng.uniform(math.log(1e-5), math.log(1e-2)))
+                                                                        for _ in range(n - 22)]:
         cases.append({"dist": "exponential", "params": [a]})
     for m in [0.05 + 1e-9, 0.5, 1.0, 2.0, 7.3, 30.0, 1, 2, 7, 30] + [rng.uniform(0.05, 30) for _ in range(n - 10)]:
         cases.append({"dist": "poisson", "params": [m]})
@@ -132,6 +133,9 @@ def check_point(res, dist, params):
         for k in ks:
             e = exact(k)
             res.count("pointwise_decimal_checks")
+            if not math.isfinite(lib[k]):
+                res.violate("value-is-not-a-finite-number", k=k, got=repr(lib[k]), exact=float(e), ctx=ctx)
+                return
             if abs(D(lib[k]) - e) > D(tol) * e + D("1e-300"):
                 res.violate("value-differs-from-exact-pmf", k=k, got=lib[k], exact=float(e), tol=tol, ctx=ctx)
                 return
